@@ -67,4 +67,21 @@ def COp.toOp : COp → Op
 def docClassMul (c : PlaneClass) (w : WType) : Option Res :=
   (docClassPtype c).map (docMul w)
 
+def _root_.Gen.Res.isOk : Res → Bool
+  | .ok _ => true
+  | .refused _ => false
+
+/-- the class acts exactly as the documented table says for the ptype it is constructed with (decidable, over the
+generated tables; true for every class whose `multiply` goes through `Plane.multiply` without forcing a type) -/
+def classTableDriven (c : PlaneClass) : Bool :=
+  WType.all.all fun w => classMul c w == docMul w (classPtype c)
+
+/-- a class documented in planes.rst conforms when it is constructed with its documented ptype, acts as the documented
+table says for that ptype, and can be applied to at least one wavefront type; undocumented classes conform trivially -/
+def classConforms (c : PlaneClass) : Bool :=
+  match docClassPtype c with
+  | none => true
+  | some p => classPtype c == p && (WType.all.all fun w => classMul c w == docMul w p)
+              && (WType.all.any fun w => (classMul c w).isOk)
+
 end Lentil.PT
